@@ -166,9 +166,14 @@ def register(reg):
     TOT = "WADV(self._max_n, %s, %s)" % (S_, T_)
     TOP = "snapshots[%s - 1]" % K_
     POT_COUPLING = [
+        # (the relation for the top entry is stated on its own: after a push the quantified part then
+        # only concerns entries the push did not touch)
         ("potential_stack", "len(g.P) == %s and implies(%s >= 1, g.P[0] == 0) and "
-                            "forall(1, %s, lambda i: g.P[i] == g.P[i - 1] + "
-                            "WADV(snapshots[i] - snapshots[i - 1], %s - i + 1, %s))" % (K_, K_, K_, S_, T_))]
+                            "forall(1, %s - 1, lambda i: g.P[i] == g.P[i - 1] + "
+                            "WADV(snapshots[i] - snapshots[i - 1], %s - i + 1, %s)) and "
+                            "implies(%s >= 2, g.P[%s - 1] == g.P[%s - 2] + "
+                            "WADV(snapshots[%s - 1] - snapshots[%s - 2], %s - %s + 2, %s))"
+         % (K_, K_, K_, S_, T_, K_, K_, K_, K_, K_, S_, K_, T_))]
 
     # F14 ---------------------------------------------------------------- _iterator
     COUPLING = [
